@@ -21,7 +21,11 @@ REAL = common.REAL_DECODER + ["tpmstream.io.hex.marshal", "tpmstream.io.swtpm_lo
 ASSUMPTIONS = ["bytes of the fields emitted so far = sum of declared widths of the primitive events emitted so far",
                "text front-ends: characters pulled <= end of the hex pair that carries the look-ahead byte (computed by the "
                "reference reader of sim/medium.py); files: bytes read <= that bound rounded up to the read boundary"]
-TIERS = {"quick": {"runs": 12000, "budget": 75}, "thorough": {"runs": 300000, "budget": 780}}
+# run_timeout: run 0 of every batch decodes a capture of more than 2 MiB (quick) / 4 and 8 MiB (thorough, runs 0 and 1) - one to
+# several minutes of CPU time in this pure-Python decoder, in a worker process of its own (SOLO) next to the other runs
+TIERS = {"quick": {"runs": 12000, "budget": 75, "run_timeout": 600}, "thorough": {"runs": 300000, "budget": 780, "run_timeout": 1800}}
+MEGA = {"quick": {0: (1 << 21)}, "thorough": {0: (1 << 22), 1: (1 << 23)}}
+SOLO = {t: set(v) for t, v in MEGA.items()}       # these runs get a worker process of their own (sim/runner.py)
 OTHER_KINDS = ("bytes", "bytearray", "list", "tuple", "memoryview", "array", "iter", "gen", "byteobjs", "realfile")
 
 
@@ -51,7 +55,130 @@ def distinct_stream(rng):
     return data, bounds
 
 
+class _Counter:
+    """a byte source that knows how many bytes were pulled"""
+
+    def __init__(self, b):
+        self.b, self.n = b, 0
+
+    def __iter__(self):
+        return self
+
+    def __next__(self):
+        if self.n >= len(self.b):
+            raise StopIteration
+        v = self.b[self.n]
+        self.n += 1
+        return v
+
+
+def mega_case(rng, n_min):
+    """a long capture: one generated exchange with a buffer of tens of kB, repeated until the capture is longer than n_min
+    bytes, cut inside the last exchange.  Everything is checked while the single decode proceeds (nothing of this size is
+    kept): the events equal those of the exchange decoded alone, over and over (==), the pull bound at every event, and
+    the end - the events of the cut exchange decoded alone, then the depleted error."""
+    from .. import gen
+    L = layout()
+    for _ in range(40):
+        k = gen.Knobs(rng)
+        k.huge_buf = rng.choice((30000, 32768, 40000, 50000, 60000, 65000))
+        k.p_fail, k.p_enc = 0.0, 0.0
+        g = gen.Gen(rng, k)
+        g.allow_huge = True
+        cmd, rsp = g.exchange(cc=None)
+        cb, _ = gen.serialise(cmd)
+        g.used_huge = False
+        rsp = g.response(cmd[2], enc=False, fail=False, n_sessions=None)
+        rb, _ = gen.serialise(rsp)
+        e = cb + rb
+        if len(e) >= 20000:
+            break
+    else:
+        return None
+    m = n_min // len(e) + 2
+    back = rng.choice((1, 2, 7, len(rb) // 2, len(rb) - 3, len(rb) + 5))
+    return {"input": {"root": model.STREAM, "cc": None, "enc": None, "label": "mega-stream:%dx%d" % (m, len(e)), "cut": m * len(e) - back, "len": m * len(e),
+                      "mode": "mega", "exchange": e.hex(), "copies": m, "back": back},
+            "tasks": [], "schedule": {"policy": "sequential", "order": []}}
+
+
+def check_mega(case, res):
+    from tpmstream.io.binary import Binary
+    inp = case["input"]
+    e = bytes.fromhex(inp["exchange"])
+    m, back = inp["copies"], inp["back"]
+    label = "%s cut %d bytes before the end" % (inp["label"], back)
+    T = real.get_type(model.STREAM)
+
+    def alone(buf):
+        evs, exc = [], None
+        try:
+            for ev in Binary.marshal(tpm_type=T, buffer=buf, abort_on_error=True):
+                evs.append(ev)
+        except Exception as x:  # noqa - compared, not judged here
+            exc = x
+        return evs, exc
+    ref, exc = alone(e)
+    if exc is not None:
+        raise HarnessError("mega: the generated exchange does not decode alone: %r" % (exc,))
+    last, last_exc = alone(e[:len(e) - back])
+    src = _Counter(bytes(e) * (m - 1) + e[:len(e) - back])
+    total = len(src.b)
+    n, cum, nref = 0, 0, len(ref)
+    widths_ref = [(ev.type._int_size if (ev.value is not ... and hasattr(ev.type, "_int_size")) else 0) for ev in ref]
+    widths_last = [(ev.type._int_size if (ev.value is not ... and hasattr(ev.type, "_int_size")) else 0) for ev in last]
+    expect_n = (m - 1) * nref + len(last)
+    n_rep = (m - 1) * nref
+    got_exc = None
+    bad = None
+    j = 0
+    decode = Binary.marshal(tpm_type=T, buffer=src, abort_on_error=True)
+    while True:
+        try:
+            ev = next(decode)
+        except StopIteration:
+            break
+        except Exception as x:  # noqa - the end of the decode; compared below
+            got_exc = x
+            break
+        if n < n_rep:
+            want, wd = ref[j], widths_ref[j]
+            j += 1
+            if j == nref:
+                j = 0
+        elif n - n_rep < len(last):
+            want, wd = last[n - n_rep], widths_last[n - n_rep]
+        else:
+            want, wd = None, 0
+        if bad is None and (want is None or not (ev == want)):
+            same = want is not None and real.ev_item(ev) == real.ev_item(want)
+            bad = (n, real.ev_item(ev), None if want is None else real.ev_item(want), same)
+        cum += wd
+        if src.n > cum + 1 and bad is None:
+            res.v("C10.a", "C10.a:lookahead:binary", "%s: %d bytes had been pulled when event %d was emitted; fields so far hold %d bytes" % (label, src.n, n, cum))
+            bad = False
+        n += 1
+    res.count("mega:events", n)
+    res.count("mega:bytes", total)
+    if bad:
+        k_, g_, w_, same = bad
+        res.v("C10.b", "C10.b:prefix:%s" % ("type-identity" if same else "events"),
+              "%s: event %d of the capture is %r, the same exchange decoded alone gives %r" % (label, k_, g_, w_))
+    elif n != expect_n and bad is None:
+        res.v("C10.c", "C10.c:complete-fields", "%s: %d events were emitted before %r (%d bytes pulled of %d); the exchanges decoded one by one give %d" % (
+            label, n, real.errsum(got_exc)[:1] if got_exc else None, src.n, total, expect_n))
+    a = type(got_exc).__name__ if got_exc is not None else None
+    b = type(last_exc).__name__ if last_exc is not None else None
+    if a != b and bad is None and n == expect_n:
+        res.v("C10.c", "C10.c:end", "%s: the capture ends with %s, its last (cut) exchange decoded alone ends with %s" % (label, a, b))
+    res.nontrivial("mega", inp["exchange"][:64], m, back)
+
+
 def make_case(i, rng, tier):
+    if i in MEGA.get(tier, {}):
+        c = mega_case(rng, MEGA[tier][i])
+        if c:
+            return c
     if rng.random() < 0.0012:
         data, bounds = distinct_stream(rng)
         k = bounds[-1] - rng.choice((3, 1, 7))
@@ -114,6 +241,9 @@ def widths(items):
 
 def check(case):
     res = Result()
+    if case["input"].get("mode") == "mega":
+        check_mega(case, res)
+        return res
     w = common.run_world(case, res)
     label = "%s cut %d/%d" % (case["input"]["label"], case["input"]["cut"], case["input"]["len"])
     whole, pre = w.tasks["whole"], w.tasks["prefix"]
